@@ -1069,6 +1069,20 @@ def handle (op : String) (j : Json) : R Json := do
     pure (res coreInfoToJson (decodeSver (← nat j "arg1") (← nat j "arg2") (← nat j "arg3") (← nats j "data")))
   | "build_machine" => pure (pmachineToJson (buildMachine (← sysInfoOfJson j)))
   | "core_constraints" => pure (jList ((coreConstraints (← sysInfoOfJson j)).map resToJson))
+  | "machine_views" =>
+    -- `Machine.__contains__` (chip, link), `Machine.__getitem__`, `iter(machine)`, `machine.iter_links()` of the
+    -- machine built from a description
+    let m := buildMachine (← sysInfoOfJson (← field j "sysinfo"))
+    let qs ← (← arr j "queries").mapM tripleOf
+    let answers := qs.map fun (x, y, l) =>
+      jList [Json.bool (m.chipOk (x, y)), Json.bool (m.linkOk x y l),
+             if m.chipOk (x, y) then (let r := m.resources (x, y); jNats [r.1, r.2.1, r.2.2]) else Json.null]
+    let all ← bool j "iter"
+    let chips := if all then (List.range m.width).flatMap fun x => (List.range m.height).filterMap fun y =>
+      if m.chipOk (x, y) then some (jNats [x, y]) else none else []
+    let links := if all then (List.range m.width).flatMap fun x => (List.range m.height).flatMap fun y =>
+      (List.range 6).filterMap fun l => if m.linkOk x y l then some (jNats [x, y, l]) else none else []
+    pure (Json.mkObj [("answers", jList answers), ("chips", jList chips), ("links", jList links)])
   -- property oracles on implementation outputs
   | "info_ok" =>
     pure (Json.bool (decide (chipView (← chipStateOfJson (← field j "state")) = (← chipInfoOfJson (← field j "got")))))
